@@ -85,6 +85,16 @@ Theorem C10_crop_footer : forall H A il xl zs R, wf3 H = true -> crop_by_indexes
 Proof. exact crop_footer_thm. Qed.
 Print Assumptions C10_crop_footer.
 
+(* WHICH ARRAYS: T lists the reader's stored_header_keys in table order, each with the header word it takes its array from
+   (hw_info.table[k][1]: k itself for an owning word, an earlier owning word for a duplicate).  For a well-formed table the
+   arrays written are the source's stored arrays 0, 1, .., n-1, each once, in order, n = the number of OWNING words: for a
+   conformant source that is its stated number of header arrays, which the regenerated header keeps (C10_crop_header:
+   s_nha H' = s_nha H).  So array j of the output is array j of the source, cropped (C10_crop_footer). *)
+Theorem C10_crop_footer_arrays : forall H T, table_ok T = true -> Z.of_nat (length (owners T)) = s_nha H ->
+  footer_arrays T = zrange 0 (s_nha H) /\ Z.of_nat (length (footer_arrays T)) = s_nha H.
+Proof. exact crop_footer_arrays_nha. Qed.
+Print Assumptions C10_crop_footer_arrays.
+
 (* REFUSALS, for EVERY header (no well-formedness needed): no range at all, or a (given or default) range that is
    empty, inverted or reaches outside the cube -> IndexError and no output; an irregular or 2D source -> the same *)
 Theorem C10_crop_refusals : forall H A il xl zs,
@@ -132,3 +142,8 @@ Example C10_nonvacuous :
   exists R, crop_by_indexes H A None (Some (5, 13)) (Some (100, 300)) = Return R /\
             (co_i0 R, co_i1 R, co_x0 R, co_x1 R, co_z0 R, co_z1 R) = (0, 10, 4, 13, 0, 300) /\ length (co_reads R) = 9%nat.
 Proof. cbv zeta. repeat split; try (vm_compute; reflexivity). eexists. split; [vm_compute; reflexivity|]. split; reflexivity. Qed.
+(* header word 5 duplicates word 1, words 181 / 185 / 189 / 193 follow: five arrays for six stored keys *)
+Example C10_nonvacuous_table :
+  let T := [(1, 1); (5, 1); (181, 181); (185, 185); (189, 189); (193, 193)] in
+  table_ok T = true /\ length (owners T) = 5%nat /\ footer_arrays T = [0; 1; 2; 3; 4].
+Proof. repeat split; vm_compute; reflexivity. Qed.
